@@ -112,6 +112,7 @@ type sub struct {
 	joiner      bool // mode joinrace: subscribes while the writer is running
 	startAtOp   int  // joiner: writer step at which Subscribe is called
 	launched    int32
+	cancelled   bool  // the harness cancelled its context while it was stalled
 	joinState   int32 // perturbation only: 1 registered, 2 walk reached its first insert
 	callTick    int64 // joiner: logical tick just before Subscribe was called
 	enteredTick int64 // joiner: logical tick when its sender reached the gate (registration is over by then)
@@ -219,6 +220,9 @@ type trial struct {
 	byReq   map[*pb.SubscribeRequest]*sub
 	maxSlp  time.Duration
 	prefill []bool
+	// stall mode: cancel the context of the permanently stalled subscribers at
+	// the end (their peer goes away) and look at the survivors.
+	cancelStalled bool
 
 	c   *cache.Cache
 	srv *subscribe.Server
@@ -461,6 +465,7 @@ func newTrial(r *vlib.Run, mode string, num int, rng *rand.Rand, scale int) *tri
 	}
 	// Prefill decided above (so that gate positions could be predicted); carried out in run().
 	t.prefill = prefilled
+	t.cancelStalled = rng.Intn(2) == 0
 	return t
 }
 
@@ -1209,6 +1214,44 @@ func (t *trial) run() (sus *suspicion, judged bool) {
 				return nil, false
 			}
 		}
+		// In half of the trials the peers of the permanently stalled subscribers
+		// now go away (context cancelled while stalled): whoever remains, with the
+		// same or with other paths, must still get what is written afterwards.
+		if t.cancelStalled {
+			var gone []*sub
+			for _, s := range t.subs {
+				if s.pattern == pPermanent && s.blocked() && !s.isDone() {
+					s.cancelled = true
+					s.stream.Cancel()
+					s.release()
+					select {
+					case <-s.done:
+						gone = append(gone, s)
+					case <-time.After(stuckGrace):
+						r.Inconclusive("Subscribe did not return after its stalled peer's context was cancelled")
+						return nil, false
+					}
+				}
+			}
+			if len(gone) > 0 {
+				r.Count("stalled_subscribers_cancelled_while_stalled", int64(len(gone)))
+				t.writeSentinels(1) // new leaves: a fresh update for every survivor
+				t.lastGen = 1
+				for _, s := range t.subs {
+					s := s
+					if s.isDone() || s.blocked() {
+						continue
+					}
+					if !t.waitCond(stuckGrace, func() bool { return s.isDone() || t.hasSentinel(s, 1) }) {
+						t.survivorLost(s, gone)
+						return nil, false
+					}
+					if !s.isDone() {
+						t.countSurvivor(s, gone)
+					}
+				}
+			}
+		}
 	case "timeout", "syncstall":
 		// Clause (5a): permanently blocked sends end their RPC with the timeout error.
 		maxWait := 1000 * t.timeout
@@ -1273,6 +1316,9 @@ func (t *trial) run() (sus *suspicion, judged bool) {
 		if s2 := t.checkEnds(false); s2 != nil {
 			return s2, false
 		}
+		gone := t.ended()
+		t.updateLeaf(t.leaves[0], false) // a fresh update of an old leaf, then new sentinels
+		atomic.AddInt64(&t.progress, 1)
 		t.writeSentinels(1)
 		t.lastGen = 1
 		for _, s := range t.subs {
@@ -1281,8 +1327,13 @@ func (t *trial) run() (sus *suspicion, judged bool) {
 				continue
 			}
 			ok := t.waitCond(stuckGrace, func() bool { return s.isDone() || t.hasSentinel(s, 1) })
+			if ok && !s.isDone() && len(gone) > 0 {
+				t.countSurvivor(s, gone)
+			}
 			if !ok {
-				if len(t.stalledNow()) > 0 {
+				if len(gone) > 0 {
+					t.survivorLost(s, gone)
+				} else if len(t.stalledNow()) > 0 {
 					t.viol("other-subscriber-starved", fmt.Sprintf("subscriber %d, idle for 3x the send timeout, did not receive a fresh update for %v", s.idx, stuckGrace), nil)
 				} else {
 					r.Inconclusive("an idle subscriber did not receive a fresh update although nobody was stalled")
@@ -1363,11 +1414,55 @@ func (t *trial) run() (sus *suspicion, judged bool) {
 	return nil, fullyJudged
 }
 
+// ended lists the subscriptions whose RPC is over (send timeout or cancelled peer).
+func (t *trial) ended() []*sub {
+	var out []*sub
+	for _, s := range t.subs {
+		if s.stream != nil && s.isDone() {
+			out = append(out, s)
+		}
+	}
+	return out
+}
+
+func (t *trial) countSurvivor(s *sub, gone []*sub) {
+	for _, g := range gone {
+		if samePaths(g, s) {
+			t.r.Count("survivors_with_identical_paths_got_fresh_update_after_peer_ended", 1)
+			return
+		}
+	}
+	t.r.Count("survivors_with_other_paths_got_fresh_update_after_peer_ended", 1)
+}
+
+func samePaths(a, b *sub) bool {
+	return fmt.Sprint(a.paths) == fmt.Sprint(b.paths)
+}
+
+// survivorLost reports a subscriber that is up, not held by the harness, and
+// yet did not receive what was written after a peer's subscription had ended.
+func (t *trial) survivorLost(s *sub, gone []*sub) {
+	var who []string
+	same := false
+	for _, g := range gone {
+		why := "its peer's context was cancelled while it was stalled"
+		if g.err != nil && strings.Contains(g.err.Error(), timeoutText) {
+			why = "terminated by the send timeout"
+		}
+		who = append(who, fmt.Sprintf("subscriber %d paths %v (%s)", g.idx, g.paths, why))
+		same = same || samePaths(g, s)
+	}
+	blocks := findBlocks(goroutineDump(), "sendStreamingResults")
+	t.viol("survivor-lost-after-peer-ended", fmt.Sprintf("subscriber %d (paths %v) is still subscribed and not held by the harness; after %s had ended, a fresh update and a new sentinel were written, but it received neither for %v with nothing else happening (shares the exact path set of an ended subscriber: %v)", s.idx, s.paths, strings.Join(who, ", "), stuckGrace, same),
+		map[string]interface{}{"survivor": s.describe(), "responses_received": s.stream.NSent(), "sender_goroutines": clip(strings.Join(blocks, "\n\n"), 3000)})
+	skipMode[t.mode] = true
+}
+
 // checkEnds looks at subscriptions whose RPC has ended although the harness
 // did not end them.
 func (t *trial) checkEnds(final bool) *suspicion {
 	for _, s := range t.subs {
-		if s.stream == nil || !s.isDone() {
+		if s.stream == nil || !s.isDone() || s.cancelled {
 			continue
 		}
 		timedOut := s.err != nil && strings.Contains(s.err.Error(), timeoutText)
